@@ -320,8 +320,13 @@ def check_selection(ctx):
 
 
 def check_repeat(ctx):
-    """C19: repeat=True: endless, only examples of the split; unshuffled =
-    the one-pass sequence repeated; rust: a permutation per epoch."""
+    """C19: repeat=True: endless, only examples of the selected part of the
+    split, each epoch complete; unshuffled = the one-pass sequence repeated;
+    rust: every epoch is a permutation of the selection.  (For the shuffled
+    Python pipelines only membership is checked here: a shuffle buffer may
+    hold an element arbitrarily long, so no count bound over a finite prefix
+    is sound; the first version of this check had one and raised a false
+    alarm, see DESIGN.md.)"""
     from sedpack.io import Dataset
     tier = ctx["tier"]
     bad = None
@@ -330,36 +335,53 @@ def check_repeat(ctx):
         layouts = build_layouts(tmp / "fb", "fb", "")
         root, expect = layouts["flat"]
         d = Dataset(root)
-        ids = expect["train"]
-        ref = reference_sequence(d, root, "train")
+        nshards = len(C.tree_shards(root, "train"))
+        # selections: whole split, a strict prefix of the shards
+        sels = [None, 2] if tier == "quick" else [None, 1, 2, nshards]
         for iface in _ifaces("fb", tier):
-            for shuffle in (0, 3):
-                for fp in ((1, 3) if iface != "numpy" else (1,)):
-                    n_eval += 1
-                    want = 3 * len(ids) + 2
-                    try:
-                        got = C.iterate(d, iface, "train", limit=want,
-                                        repeat=True, shuffle=shuffle,
-                                        file_parallelism=fp)
-                    except Exception as e:  # noqa: BLE001
-                        bad = dict(interface=iface, shuffle=shuffle, fp=fp,
-                                   error=repr(e)[:300])
-                        break
-                    if len(got) != want or not set(got) <= set(ids):
-                        bad = dict(interface=iface, shuffle=shuffle, fp=fp,
-                                   got=got, what="not endless / foreign ids")
-                        break
-                    if shuffle == 0 and got != (ref * 4)[:want]:
-                        bad = dict(interface=iface, shuffle=0, fp=fp, got=got,
-                                   expected=(ref * 4)[:want])
-                        break
-                    if iface == "rust":
-                        for e in range(3):
-                            ep = got[e * len(ids):(e + 1) * len(ids)]
-                            if sorted(ep) != sorted(ids):
-                                bad = dict(interface=iface, shuffle=shuffle,
-                                           fp=fp, epoch=e, got=ep)
-                                break
+            for k in sels:
+                ref = reference_sequence(d, root, "train", k=k)
+                ids = sorted(ref)
+                for shuffle in (0, 3):
+                    # file_parallelism beyond the number of (selected) shards:
+                    # a cycled batch then names the same shard more than once
+                    fps = (1,) if iface == "numpy" else (
+                        (1, 3, nshards + 3) if tier != "quick" or k else (1, 3))
+                    for fp in fps:
+                        n_eval += 1
+                        want = 3 * len(ids) + 2
+                        kw = dict(repeat=True, shuffle=shuffle,
+                                  file_parallelism=fp)
+                        if k:
+                            kw["shards"] = k
+                        try:
+                            got = C.iterate(d, iface, "train", limit=want, **kw)
+                        except Exception as e:  # noqa: BLE001
+                            bad = dict(interface=iface, shuffle=shuffle, fp=fp,
+                                       shards=k, error=repr(e)[:300])
+                            break
+                        w = dict(interface=iface, shuffle=shuffle, fp=fp,
+                                 shards=k)
+                        if len(got) != want or not set(got) <= set(ids):
+                            bad = dict(w, got=got, selected=ids,
+                                       what="not endless / ids outside the "
+                                            "selection")
+                            break
+                        if shuffle == 0 and got != (ref * 4)[:want]:
+                            bad = dict(w, got=got, expected=(ref * 4)[:want],
+                                       what="unshuffled repeat is not the "
+                                            "one-pass sequence repeated")
+                            break
+                        if iface == "rust":
+                            for e in range(3):
+                                ep = got[e * len(ids):(e + 1) * len(ids)]
+                                if sorted(ep) != ids:
+                                    bad = dict(w, epoch=e, got=ep,
+                                               selected=ids,
+                                               what="epoch is not a "
+                                                    "permutation of the "
+                                                    "selection")
+                                    break
                     if bad:
                         break
                 if bad:
@@ -367,11 +389,13 @@ def check_repeat(ctx):
             if bad:
                 break
     return [C.result(
-        "repeat=True: prefix of 3 epochs + 2 is endless, within the split, "
-        "periodic when unshuffled, a permutation per epoch for rust",
+        "repeat=True: prefix of 3 epochs + 2 is endless, within the selection "
+        "(shards=k or whole split), periodic when unshuffled, a permutation "
+        "per epoch for rust",
         bad is None, function="as_numpy_common", evaluations=n_eval,
-        witness=bad, bound="fb, 7 examples in 4 shards, shuffle in {0,3}, "
-                           "fp in {1,3}")]
+        witness=bad, bound="fb, 7 examples in 4 shards, shards in "
+                           f"{sels}, shuffle in {{0,3}}, file_parallelism up "
+                           "to shards+3")]
 
 
 def _damage(path: Path, kind):
